@@ -57,7 +57,14 @@ Definition sub {A} (l : list A) (v : view) : list A :=
 (* ------------------------------------------------------------------ machine integers *)
 
 Definition isize_max (w : Z) : Z := 2 ^ (w - 1) - 1.
-Definition wrap (w x : Z) : Z := x mod 2 ^ w.
+(** [x mod 2^w].  The first two branches only avoid a division when [x] is within one
+    modulus of the range, which is the case for every difference of two usize values
+    ([wrap_mod] in Proofs/SliceProofs.v: [wrap w x = x mod 2^w] for every [w >= 0] and [x]). *)
+Definition wrap (w x : Z) : Z :=
+  let m := 2 ^ w in
+  if (0 <=? x) && (x <? m) then x
+  else if (- m <=? x) && (x <? 0) then x + m
+  else x mod m.
 (** [x as isize] for a usize [x] *)
 Definition to_isize (w x : Z) : Z := if x <? 2 ^ (w - 1) then x else x - 2 ^ w.
 (** [usize::overflowing_sub] *)
